@@ -124,7 +124,9 @@ CASES = [(s, c, sm) for s in ("closest", "closest-heavy", "sidechain", "sidechai
 
 def compute_contacts(ctx, case):
     scheme, contacts, soft = case
-    n_frames = 1
+    import os
+
+    n_frames = 2 if os.environ.get("MDVC_TIER") == "thorough" else 1
     calls = []
     mod = setup(ctx, n_frames, calls)
     top = build_top()
